@@ -1,4 +1,5 @@
 import Gimli.Model.Reuse
+import Gimli.Model.ReuseUnwind
 /-!
 # C20 — reused contexts, buffers, iterators and caches behave like fresh ones
 -/
@@ -50,6 +51,39 @@ theorem history_reused_eq_fresh (E : Evaluator Row Rule Fde Res) (fs : List Fde)
     intro c
     simp only [Evaluator.history, List.map_cons]
     rw [ih, eval_reused_eq_fresh E c f]
+
+/-! ## the unwind machine of C06 on a reused context -/
+
+open Gimli.ReuseUnwind in
+/-- `unwind` (Model/Unwind.lean, the function C06's theorems and correspondence run are about) is
+`unwindOn` started on the context its own `reset` creates -/
+theorem unwind_eq_unwindOn (x : FdeIn) (h : x.cfg.R.hasRoom 0 = true) :
+    Unwind.unwind x.cfg x.cie x.cieTail x.fde x.fdeTail x.initial x.len
+      = unwindOn x { stack := [{}], initialRule := none, isInitialized := false } := by
+  simp [Unwind.unwind, unwindOn, Unwind.initializeCtx, Unwind.reset, h]
+
+open Gimli.ReuseUnwind in
+/-- **a reused `UnwindContext` unwinds like C06's fresh one**: for EVERY context — whatever rows,
+initial rule, flag and unused storage contents earlier evaluations (successful, failed in the CIE,
+failed in the FDE, stack overflowed) left behind — every FDE, CIE, configuration and capacity
+(≥ 1), evaluating on that context yields exactly the rows and the outcome that `Unwind.unwind`
+yields; so every theorem of Props/C06.lean about `unwind` holds on reused contexts. -/
+theorem unwind_reused_eq_fresh (c : Reuse.Ctx Unwind.Row IRule) (x : FdeIn) (h : x.cfg.R.hasRoom 0 = true) :
+    (evaluator.eval c x).1 = Unwind.unwind x.cfg x.cie x.cieTail x.fde x.fdeTail x.initial x.len := by
+  rw [unwind_eq_unwindOn x h]
+  rfl
+
+open Gimli.ReuseUnwind in
+/-- histories of FDEs on one context, with C06's machine -/
+theorem unwind_history_reused_eq_fresh (fs : List FdeIn) (c : Reuse.Ctx Unwind.Row IRule)
+    (h : ∀ x ∈ fs, x.cfg.R.hasRoom 0 = true) :
+    evaluator.history c fs
+      = fs.map (fun x => Unwind.unwind x.cfg x.cie x.cieTail x.fde x.fdeTail x.initial x.len) := by
+  induction fs generalizing c with
+  | nil => rfl
+  | cons x xs ih =>
+    simp only [Evaluator.history, List.map_cons]
+    rw [unwind_reused_eq_fresh c x (h x (by simp)), ih _ (fun y hy => h y (by simp [hy]))]
 
 /-! ## abbreviation cache -/
 
